@@ -29,6 +29,7 @@ type engineRun struct {
 	label       string
 	faultFree   bool
 	description string
+	perProc     uint64
 }
 
 type checkSpec struct {
@@ -149,7 +150,7 @@ func doCheck(id, tier string) int {
 	}
 	var aggs []*agg
 	for _, r := range spec.runs {
-		cfg := &poolCfg{eng: r.spec, sites: b.sites, seed: seed, tier: tier, workers: workersFor(tier), stallKill: 300 * time.Second, emitFirst: 2, extra: r.extra}
+		cfg := &poolCfg{eng: r.spec, sites: b.sites, seed: seed, tier: tier, workers: workersFor(tier), stallKill: 300 * time.Second, emitFirst: 2, extra: r.extra, perProc: r.perProc}
 		if r.spec.race {
 			cfg.bin = b.workerR
 		} else {
@@ -416,7 +417,7 @@ func doReplay(path string) int {
 	}
 	bw := buildWorkers(run.spec.race, !run.spec.race)
 	defer bw.cleanup()
-	cfg := &poolCfg{eng: run.spec, sites: bw.sites, seed: rf.Seed, tier: "quick", workers: 1, extra: run.extra, trace: true}
+	cfg := &poolCfg{eng: run.spec, sites: bw.sites, seed: rf.Seed, tier: "quick", workers: 1, extra: run.extra, trace: true, perProc: run.perProc}
 	cfg.bin = bw.worker
 	if run.spec.race {
 		cfg.bin = bw.workerR
